@@ -186,3 +186,114 @@ func gormZeroValue(r *Report, id string, why string, minControl int, owners map[
 	}
 	r.OK(id+".control", rule, "", fmt.Sprintf("%d string conditions", ctrl), false)
 }
+
+// gormTxDiscipline: inside every closure handed to (*gorm.DB).Transaction in the given packages, database operations go
+// through the closure's transaction handle: no gorm call there is rooted at a field (s.db, r.DB ...) or global.
+func gormTxDiscipline(r *Report, id string, pkgs ...string) {
+	p := r.P
+	rule := "ORDER: inside a gorm Transaction closure every database operation uses the transaction handle passed to the closure (an operation on the outer *gorm.DB would run outside the transaction)"
+	nCl, nCalls := 0, 0
+	for _, fn := range p.Funcs {
+		if fn.Pkg == nil || p.FileClass(p.FuncPos(fn)) != "prod" {
+			continue
+		}
+		in := false
+		for _, pre := range pkgs {
+			if strings.HasPrefix(fn.Pkg.Pkg.Path(), ModPath+"/"+pre) {
+				in = true
+			}
+		}
+		if !in {
+			continue
+		}
+		for _, cl := range ClosureArgs(fn, Fn(gormPkg, "DB", "Transaction"), 0) {
+			nCl++
+			for _, f := range WithAnons(cl) {
+				for _, b := range f.Blocks {
+					for _, ins := range b.Instrs {
+						ci, ok := ins.(ssa.CallInstruction)
+						if !ok {
+							continue
+						}
+						sc := ci.Common().StaticCallee()
+						if sc == nil || sc.Pkg == nil || sc.Pkg.Pkg.Path() != "gorm.io/gorm" || sc.Signature.Recv() == nil || len(ci.Common().Args) == 0 {
+							continue
+						}
+						if n := NamedOf(sc.Signature.Recv().Type()); n == nil || n.Obj().Name() != "DB" {
+							continue
+						}
+						nCalls++
+						root := gormChainRoot(ci.Common().Args[0])
+						switch x := root.(type) {
+						case *ssa.Parameter, *ssa.FreeVar:
+							// the closure's own tx parameter, or a tx handle captured from an enclosing transaction closure
+							if fv, ok := x.(*ssa.FreeVar); ok && !strings.Contains(strings.ToLower(fv.Name()), "tx") {
+								r.Bad(id+" @ "+p.FuncName(fn), rule, p.Pos(ins.Pos()), "gorm call on captured variable "+fv.Name()+" inside a transaction closure")
+								return
+							}
+						default:
+							r.Bad(id+" @ "+p.FuncName(fn), rule, p.Pos(ins.Pos()), "gorm call rooted at "+AccessPath(root, 0)+" inside a transaction closure (not the transaction handle)")
+							return
+						}
+					}
+				}
+			}
+		}
+	}
+	r.Sites += nCalls
+	if nCl == 0 {
+		r.Lost(id, rule, "no gorm Transaction closure found in "+strings.Join(pkgs, ", "))
+		return
+	}
+	r.OK(id, rule, "", fmt.Sprintf("%d transaction closures, %d gorm calls, all on the transaction handle", nCl, nCalls), true)
+}
+
+// gormChainRoot follows a fluent gorm chain (tx.Where(..).Order(..)) and local copies back to where the *gorm.DB came from.
+func gormChainRoot(v ssa.Value) ssa.Value {
+	for i := 0; i < 20; i++ {
+		v = StripConv(v)
+		switch x := v.(type) {
+		case *ssa.Call:
+			sc := x.Common().StaticCallee()
+			if sc != nil && sc.Pkg != nil && (sc.Pkg.Pkg.Path() == "gorm.io/gorm") && sc.Signature.Recv() != nil && len(x.Common().Args) > 0 {
+				v = x.Common().Args[0]
+				continue
+			}
+			return v
+		case *ssa.Extract:
+			v = x.Tuple
+			continue
+		case *ssa.Phi:
+			// all edges must agree on the root kind; take the first non-self edge
+			for _, e := range x.Edges {
+				if e != ssa.Value(x) {
+					v = e
+					break
+				}
+			}
+			continue
+		case *ssa.UnOp:
+			if x.Op == token.MUL {
+				if a, ok := x.X.(*ssa.Alloc); ok {
+					var val ssa.Value
+					for _, ref := range *a.Referrers() {
+						if st, ok := ref.(*ssa.Store); ok && st.Addr == ssa.Value(a) {
+							val = st.Val
+						}
+					}
+					if val != nil {
+						v = val
+						continue
+					}
+				}
+				if fv, ok := x.X.(*ssa.FreeVar); ok {
+					return fv
+				}
+			}
+			return v
+		default:
+			return v
+		}
+	}
+	return v
+}
